@@ -5,7 +5,7 @@ from .readerlib import both_modes, dump_dict, canon
 
 ID = 'C10'
 TARGETS = ['theories/Properties/C10.vo']
-THEOREMS = []
+THEOREMS = core.theorems_of(ID)
 LEVEL = ('reader model with the skip_frames branch (seek / hashed copy to raw_len - (1 + Game End size)) tied to the code by differential runs; oracle on the '
          'real library: skip read = full read on start/end/metadata, zero frames, and the result survives write + re-read in .slp and .slpp '
          '(.slpp half: see C02/C18 model)')
